@@ -114,6 +114,67 @@ theorem run_refines {M : Nat} (ops : List Op) (s : Shared) (wf : WF M s) :
       refine ⟨s', .num (freeSpace M s) :: outs, by simp [run, step, h2], wf2, ?_⟩
       simp [specRun, specStep, e2, free_is_capacity_minus_length wf]
 
+/-! ## lengths far beyond the capacity
+
+The driver answers `wz H LEN` (a write of `LEN` zero bytes, `LEN` up to 2^64 − 1) with `writeZeros`; it is the
+same function as `write` on that input, for the model and for the reference queue alike, so `run_refines`
+speaks about those calls too. -/
+theorem setRange_length {d : List UInt8} {st : Nat} {xs d' : List UInt8} (h : setRange d st xs = some d') :
+    d'.length = d.length := by
+  unfold setRange at h
+  split at h
+  · cases h; simp; omega
+  · cases h
+
+/-- a write that passes the free-space test but is longer than data area + modulus runs out of the data area -/
+theorem write_fault_of_too_long (M : Nat) (s : Shared) (xs : List UInt8) (h0 : xs.length ≠ 0)
+    (hf : ¬ freeSpace M s < xs.length) (hl : s.data.length + M < xs.length) : write M s xs = .fault := by
+  unfold write
+  have h1 : ¬ (s.wr % M + xs.length ≤ M) := by omega
+  simp only [h0, hf, h1, if_false]
+  cases e1 : setRange s.data (s.wr % M) (List.take (M - s.wr % M) xs) with
+  | none => rfl
+  | some d1 =>
+    have hlen := setRange_length e1
+    have : setRange d1 0 (List.drop (M - s.wr % M) xs) = none := by
+      unfold setRange
+      have : ¬ (0 + (List.drop (M - s.wr % M) xs).length ≤ d1.length) := by
+        simp only [List.length_drop]; omega
+      simp; omega
+    simp [this]
+
+theorem writeZeros_eq_write (M : Nat) (s : Shared) (n : Nat) : writeZeros M s n = write M s (List.replicate n 0) := by
+  unfold writeZeros
+  by_cases h : n ≠ 0 ∧ freeSpace M s < n
+  · unfold write; simp [h, List.length_replicate]
+  · rw [if_neg h]
+    by_cases hl : s.data.length + M < n
+    · rw [if_pos hl]
+      by_cases h0 : n = 0
+      · omega
+      · have hf : ¬ freeSpace M s < n := fun hh => h ⟨h0, hh⟩
+        exact (write_fault_of_too_long M s (List.replicate n 0) (by simpa using h0) (by simpa using hf) (by simpa using hl)).symm
+    · rw [if_neg hl]
+
+theorem queue_writeZeros_eq_write (S : Nat) (q : Queue.Q) (n : Nat) :
+    Queue.writeZeros S q n = Queue.write S q (List.replicate n 0) := by
+  unfold Queue.writeZeros Queue.write
+  by_cases h : n ≠ 0 ∧ ¬ n ≤ S - q.length
+  · simp [h, List.length_replicate]
+  · rw [if_neg h]
+
+/-- a write longer than the capacity is refused whatever the state (so is every length ≥ 2^32) -/
+theorem write_longer_than_capacity {M : Nat} {s : Shared} (wf : WF M s) (xs : List UInt8) (h : M - 1 < xs.length) :
+    ∃ s', write M s xs = .ok s' 0 ∧ abs M s' = abs M s := by
+  obtain ⟨s', r, e, _, q⟩ := write_refines wf xs
+  have hl : ¬ xs.length ≤ M - 1 - (abs M s).length := by omega
+  have h0 : xs.length ≠ 0 := by omega
+  simp [Queue.write, hl, h0] at q
+  exact ⟨s', by rw [e, ← q.2], q.1⟩
+
+/-! ## the source text is the text the model was written from -/
+theorem source_shape_as_modelled : Generated.shmBufferShapeAsModelled = true := by decide
+
 /-! ## concurrent reads and writes are atomic with respect to each other
 
 Every operation of `pshmbuffer.c` touches the shared segment only between `p_shm_lock` and
